@@ -67,8 +67,9 @@ def make_cfg(base, dest, constants=None, invariants=None, properties=None):
 REPLAY_RE = re.compile(r'^<<"(REPLAY|META|[A-Z]+)", (".*")>>\s*$')
 
 
-def run_tlc(module, cfg, wd, workers=8, timeout=900, simulate=None, heap="8g", extra=None, deadlock=False, env_extra=None):
-    """Run TLC; returns dict(stats, records: {tag: [json...]}, out: path)."""
+def run_tlc(module, cfg, wd, workers=8, timeout=900, simulate=None, heap="8g", extra=None, deadlock=False, env_extra=None, on_record=None):
+    """Run TLC; returns dict(stats, records: {tag: [json...]}, out: path).
+    on_record(tag, obj) -> True consumes a record instead of keeping it (large universes: nothing is held twice)."""
     out_path = os.path.join(wd, module + ".out")
     md = os.path.join(wd, "md-" + module)
     cmd = ["java", "-XX:+UseParallelGC", "-Xss1g", "-Xmx" + heap,
@@ -97,7 +98,9 @@ def run_tlc(module, cfg, wd, workers=8, timeout=900, simulate=None, heap="8g", e
             if ln.startswith('<<"'):
                 m = REPLAY_RE.match(ln)
                 if m:
-                    records.setdefault(m.group(1), []).append(json.loads(json.loads(m.group(2))))
+                    obj = json.loads(json.loads(m.group(2)))
+                    if not (on_record and on_record(m.group(1), obj)):
+                        records.setdefault(m.group(1), []).append(obj)
                     continue
             m = re.match(r"(\d+) states generated, (\d+) distinct states found", ln)
             if m:
